@@ -201,11 +201,28 @@ func (p *Prog) allocInitialises(a *ssa.Alloc, fv *types.Var) bool {
 	// ... or a method of the object that makes the field on all its paths is called on it
 	// before anything else can get hold of the object (`n := &survey{…}; …; n.start(…)`, where
 	// start makes the queue and is what publishes the survey)
+	// receivers that stand for the new object: the allocation itself, or a struct embedded in it
+	// by value (`p := new(connipc); p.conn.setup(…)`)
+	recvs := map[ssa.Value]bool{a: true}
 	for _, ref := range *a.Referrers() {
-		call, ok := ref.(*ssa.Call)
-		if !ok || call.Call.IsInvoke() || len(call.Call.Args) == 0 || call.Call.Args[0] != ssa.Value(a) {
+		if fa, ok := ref.(*ssa.FieldAddr); ok && fa.X == ssa.Value(a) {
+			if _, isStruct := fa.Type().(*types.Pointer).Elem().Underlying().(*types.Struct); isStruct {
+				recvs[fa] = true
+			}
+		}
+	}
+	var calls []*ssa.Call
+	for rv := range recvs {
+		if rv.Referrers() == nil {
 			continue
 		}
+		for _, ref := range *rv.Referrers() {
+			if call, ok := ref.(*ssa.Call); ok && !call.Call.IsInvoke() && len(call.Call.Args) > 0 && call.Call.Args[0] == rv {
+				calls = append(calls, call)
+			}
+		}
+	}
+	for _, call := range calls {
 		sc := call.Call.StaticCallee()
 		if sc == nil || !methodMakes(sc, fv) {
 			continue
